@@ -21,7 +21,10 @@ func c04Prop(st *CaseStats, fam int) func(t *rapid.T) {
 		sc := GenScenario(t)
 		cfg := CaseCfg{Family: fam, MaxDocs: 6, MaxIn: 3}
 		depth := 0
-		if fam == FamSmall || fam == FamMid {
+		if fam == FamBig {
+			cfg.MaxIn = 2
+			depth = rapid.SampledFrom([]int{0, 0, 1}).Draw(t, "depthBig")
+		} else if fam == FamSmall || fam == FamMid {
 			depth = rapid.SampledFrom([]int{0, 1, 1, 2, 3}).Draw(t, "depth")
 		} else {
 			cfg.MaxIn = 2
@@ -145,4 +148,10 @@ func TestC04Mid(t *testing.T) {
 	st := NewStats("C04Mid", c04Rule)
 	defer st.Flush()
 	rapid.Check(t, c04Prop(st, FamMid))
+}
+
+func TestC04Big(t *testing.T) {
+	st := NewStats("C04Big", c04Rule)
+	defer st.Flush()
+	rapid.Check(t, c04Prop(st, FamBig))
 }
